@@ -281,7 +281,7 @@ func robustProp(c RobustCase) error {
 	select {
 	case err := <-done:
 		return err
-	case <-time.After(5 * time.Second):
+	case <-pbt.After(5 * time.Second):
 		return fmt.Errorf("TParm(%q, %v) did not return within 5s", c.Prog, toArgs(c.Params))
 	}
 }
@@ -666,7 +666,9 @@ func TestProp(t *testing.T) {
 	})
 	pbt.Check(t, "robust", pbt.Pick(20000, 300000), pbt.Spec[RobustCase]{
 		Gen: genRobust, Prop: robustProp,
-		NonTrivial: func(c RobustCase) bool { return strings.Contains(string(c.Prog), "%?") || strings.Contains(string(c.Prog), "%p") },
+		NonTrivial: func(c RobustCase) bool {
+			return strings.Contains(string(c.Prog), "%?") || strings.Contains(string(c.Prog), "%p")
+		},
 	})
 	refCheck(t)
 }
